@@ -45,11 +45,19 @@ pub proof fn lemma_lv_double(s: Seq<u64>, n: nat)
 
 //@ include lib/conv_spec.rs
 
+//@ extract src/from.rs enum FromUintError
+pub enum FromUintError<T> {
+    Overflow(usize, T, T),
+}
+//@ end
+
 impl<const BITS: usize, const LIMBS: usize> Uint<BITS, LIMBS> {
 //@ import core LIMBS
 //@ import core MASK
 //@ import core ZERO
 //@ import core from_limbs
+//@ import core as_limbs
+//@ import bitlen bit_len
 
     // for BITS <= 64:  x > MASK  <==>  x >= 2^BITS,  and  x & MASK == x mod 2^BITS
     pub proof fn lemma_mask_one_limb(x: u64)
@@ -201,7 +209,109 @@ impl<const BITS: usize, const LIMBS: usize> Uint<BITS, LIMBS> {
         }
     }
 //@ end
+    // lv(s, n) mod 2^128 for n >= 2 is the value of the two low limbs
+    pub proof fn lemma_lv_low_two(s: Seq<u64>, n: nat)
+        requires 2 <= n <= s.len()
+        ensures (lv(s, n) as int) % (B * B) == s[0] as int + B * s[1] as int
+        decreases n
+    {
+        lemma_pow2_64(); lemma2_to64();
+        if n == 2 {
+            lemma_lv_double(s, 2);
+            assert(B * B > 0) by(nonlinear_arith);
+            assert(s[0] as int + B * s[1] as int <= (B - 1) + B * (B - 1)) by(nonlinear_arith) requires 0 <= s[0] as int <= B - 1, 0 <= s[1] as int <= B - 1;
+            assert((B - 1) + B * (B - 1) < B * B) by(nonlinear_arith);
+            lemma_mul_is_commutative(s[1] as int, B);
+            lemma_small_mod((s[0] as int + B * s[1] as int) as nat, (B * B) as nat);
+        } else {
+            Self::lemma_lv_low_two(s, (n - 1) as nat);
+            let w = pow2(64 * (n - 1) as nat);
+            lemma_pow2_adds(128, (64 * (n - 1) - 128) as nat); lemma_pow2_adds(64, 64);
+            let h = pow2((64 * (n - 1) - 128) as nat);
+            let t = (s[n - 1] as nat) * w;
+            assert(t as int == (B * B) * ((s[n - 1] as int) * h as int)) by(nonlinear_arith) requires t == (s[n - 1] as nat) * w, w as int == (B * B) * h as int;
+            assert(B * B > 0) by(nonlinear_arith);
+            lemma_mod_multiples_vanish((s[n - 1] as int) * h as int, lv(s, (n - 1) as nat) as int, B * B);
+        }
+    }
+
+//@ extract expanded fn try_from ctx="TryFrom<&Uint<BITS,LIMBS>>foru64" vis=none as=to_u64__try_from rewrite="-> Result < Self , Self :: Error >" => "-> Result<u64, FromUintError<u64> >" #1 rewrite="const SIGNED : bool = < u64 > :: MIN != 0 ;" => "let SIGNED: bool = u64::MIN != 0;" #1 rewrite="const CAPACITY : usize = if SIGNED { < u64 > :: BITS - 1 } else { < u64 > :: BITS } as usize ;" => "let CAPACITY: usize = if SIGNED { 63 } else { 64 };" #1 rewrite="Self :: Error :: Overflow" => "FromUintError::Overflow" #1 rewrite="as Self" => "as u64" #2 rewrite="Self :: MAX ( )" => "u64::MAX" #1
+        fn to_u64__try_from(value: &Uint<BITS, LIMBS>) -> /*+*/(r:/*-*/ Result<u64, FromUintError<u64> >/*+*/)
+            requires value.wf()
+            ensures
+                value.val() < 0x1_0000_0000_0000_0000 ==> r == Ok::<u64, FromUintError<u64>>(value.val() as u64),
+                value.val() >= 0x1_0000_0000_0000_0000 ==> r == Err::<u64, FromUintError<u64>>(FromUintError::Overflow(BITS, (value.val() % 0x1_0000_0000_0000_0000) as u64, u64::MAX)),/*-*/
+        {
+            let SIGNED: bool = u64::MIN != 0;
+            let CAPACITY: usize = if SIGNED { 63 } else { 64 };
+            /*+*/proof {
+                lemma2_to64(); lemma_pow2_64();
+                if BITS == 0 { value.lemma_wf_lt(); } else { lemma_lv_low_limb(value.limbs@, LIMBS as nat); }
+            }/*-*/
+            if BITS == 0 { return Ok(0); }
+            /*+*/proof {
+                // bit_len <= 64  <==>  value < 2^64
+                assert forall|k: nat| #[trigger] is_bit_len(value.val(), k) implies ((k > 64) == (value.val() >= 0x1_0000_0000_0000_0000)) by {
+                    if value.val() != 0 {
+                        if k > 64 { if k > 65 { lemma_pow2_strictly_increases(64, (k - 1) as nat); } } else { if k < 64 { lemma_pow2_strictly_increases(k, 64); } }
+                    }
+                }
+                if value.val() < 0x1_0000_0000_0000_0000 { lemma_small_mod(value.val(), 0x1_0000_0000_0000_0000); }
+            }/*-*/
+            if value.bit_len() > CAPACITY {
+                return Err(FromUintError::Overflow(BITS, value.limbs[0] as u64,
+                            u64::MAX));
+            }
+            Ok(value.as_limbs()[0] as u64)
+        }
+//@ end
+
+//@ extract src/from.rs fn try_from ctx="TryFrom<&Uint<BITS,LIMBS>>foru128" vis=none as=to_u128__try_from rewrite="-> Result < Self , Self :: Error >" => "-> Result<u128, FromUintError<u128> >" #1 rewrite="Self :: Error :: Overflow" => "FromUintError::Overflow" #1
+        fn to_u128__try_from(value: &Uint<BITS, LIMBS>) -> /*+*/(r:/*-*/ Result<u128, FromUintError<u128> >/*+*/)
+            requires value.wf()
+            ensures
+                (value.val() as int) < B * B ==> r == Ok::<u128, FromUintError<u128>>(value.val() as u128),
+                (value.val() as int) >= B * B ==> r == Err::<u128, FromUintError<u128>>(FromUintError::Overflow(BITS, ((value.val() as int) % (B * B)) as u128, u128::MAX)),/*-*/
+        {
+            /*+*/proof {
+                lemma2_to64(); lemma_pow2_64(); lemma_pow2_adds(64, 64);
+                assert(u128::MAX as int == B * B - 1) by(compute_only);
+                if BITS == 0 { value.lemma_wf_lt(); }
+            }/*-*/
+            if BITS == 0 {
+                return Ok(0);
+            }
+            let mut result = value.limbs[0] as u128;
+            if BITS <= 64 {
+                /*+*/proof {
+                    assert(LIMBS == 1);
+                    lemma_lv_single(value.limbs@, 1);
+                    assert((value.val() as int) < B * B) by(nonlinear_arith) requires (value.val() as int) < B, B > 1;
+                }/*-*/
+                return Ok(result);
+            }
+            /*+*/let ghost l0 = value.limbs[0]; let ghost l1 = value.limbs[1];
+            proof {
+                assert(LIMBS >= 2);
+                assert(((l0 as u128) | ((l1 as u128) << 64)) == (l0 as u128) + (l1 as u128) * 0x1_0000_0000_0000_0000u128) by(bit_vector);
+                Self::lemma_lv_low_two(value.limbs@, LIMBS as nat);
+                lemma_mul_is_commutative(B, l1 as int);
+                assert forall|k: nat| #[trigger] is_bit_len(value.val(), k) implies ((k > 128) == ((value.val() as int) >= B * B)) by {
+                    if value.val() != 0 {
+                        if k > 128 { if k > 129 { lemma_pow2_strictly_increases(128, (k - 1) as nat); } } else { if k < 128 { lemma_pow2_strictly_increases(k, 128); } }
+                    }
+                }
+                if (value.val() as int) < B * B { lemma_small_mod(value.val(), (B * B) as nat); }
+            }/*-*/
+            result |= (value.limbs[1] as u128) << 64;
+            if value.bit_len() > 128 {
+                return Err(FromUintError::Overflow(BITS, result, u128::MAX));
+            }
+            Ok(result)
+        }
+//@ end
 }
+
 
 // `.and_then(|n| Err(ToUintError::ValueTooLarge(BITS, n)))`  (declared rewrite of the closure form: and_then's definition)
 pub trait AndThenTooLarge<const BITS: usize, const LIMBS: usize> { fn and_then_too_large(self) -> Result<Uint<BITS, LIMBS>, ToUintError<Uint<BITS, LIMBS>>>; }
